@@ -87,13 +87,13 @@ impl Cli {
     pub fn new_wired(cfg: ClientSessionConfig, clock: u64, wire: Option<WireLog>) -> (Cli, Value) {
         rml_rtmp::verif::set_clock(Some(clock));
         rml_rtmp::verif::tap_start(true);
-        let cfgj = json!({"cs":cfg.chunk_size,"win":w(cfg.window_ack_size)});
+        let cfgj = json!({"cs":cfg.chunk_size,"win":w(cfg.window_ack_size),"buf":w(cfg.playback_buffer_length_ms)});
         let (s, rs) = ClientSession::new(cfg).expect("client session");
         let mut peer = Peer::new();
         let results = results_json(&mut peer, &rs);
         let mut c = Cli { s, peer, clock, txns: vec![], sids: vec![], wire, clock_mode: 0 };
         c.wire_record(&rs);
-        let ev = json!({"ev":"New","cfg":cfgj,"res":"ok","results":results,"probe":probe_json(&c.s)});
+        let ev = json!({"ev":"New","cfg":cfgj,"res":"ok","results":results,"probe":probe_json(&c.s),"clk":w(clock as u32)});
         (c, ev)
     }
     fn note(&mut self, results: &[Value]) {
@@ -122,7 +122,7 @@ impl Cli {
             Err(p) => (format!("panic:{}", panic_msg(p)), vec![]),
         };
         self.note(&results);
-        json!({"ev":"In","i":desc,"n":bytes.len(),"res":res,"results":results,"probe":probe_json(&self.s)})
+        json!({"ev":"In","i":desc,"n":bytes.len(),"res":res,"results":results,"probe":probe_json(&self.s),"clk":w(self.clock as u32)})
     }
     pub fn call(&mut self, desc: Value, f: &mut dyn FnMut(&mut ClientSession) -> Result<Vec<ClientSessionResult>, String>) -> Value {
         if self.clock_mode == 0 { self.clock += 3; }
@@ -142,7 +142,7 @@ impl Cli {
             Err(p) => (format!("panic:{}", panic_msg(p)), vec![]),
         };
         self.note(&results);
-        json!({"ev":"Call","i":desc,"res":res,"results":results,"probe":probe_json(&self.s)})
+        json!({"ev":"Call","i":desc,"res":res,"results":results,"probe":probe_json(&self.s),"clk":w(self.clock as u32)})
     }
 }
 
